@@ -120,12 +120,16 @@ func CrashSignature(log string) (sig, msg, excerpt string, harness bool) {
 		if strings.HasPrefix(l, "panic(") || strings.HasPrefix(l, "runtime.") || strings.HasPrefix(l, "/") || l == "" || strings.HasPrefix(l, "created by") {
 			continue
 		}
-		if m := reAnyFrame.FindStringSubmatch(l); m != nil {
-			if first == "" {
-				first = m[1]
+		if k := strings.LastIndex(l, "("); k > 0 && !strings.HasPrefix(l, "goroutine") {
+			name := l[:k]
+			if strings.ContainsAny(name, " \t") {
+				continue
 			}
-			if strings.HasPrefix(m[1], "github.com/q191201771/") {
-				fn = m[1]
+			if first == "" {
+				first = name
+			}
+			if strings.HasPrefix(name, "github.com/q191201771/") {
+				fn = name
 				break
 			}
 		}
@@ -256,7 +260,8 @@ func Drive(o DriveOpts) int {
 			if only >= 0 {
 				first, stride = only, 1
 			}
-			for attempt := 0; attempt < 200 && first < n; attempt++ {
+			sub := 0
+			for attempt := 0; attempt < 400 && first < n; attempt++ {
 				out := filepath.Join(o.Scratch, fmt.Sprintf("b%d_%d.jsonl", b, attempt))
 				logp := filepath.Join(o.Scratch, fmt.Sprintf("b%d_%d.log", b, attempt))
 				cs := filepath.Join(o.Scratch, fmt.Sprintf("c%d_%d", b, attempt))
@@ -264,7 +269,7 @@ func Drive(o DriveOpts) int {
 				lf, _ := os.Create(logp)
 				args := []string{"child", "-prop", p.ID, "-tier", o.Tier, "-seed", strconv.FormatInt(o.Seed, 10),
 					"-first", strconv.Itoa(first), "-stride", strconv.Itoa(stride), "-n", strconv.Itoa(n),
-					"-only", strconv.Itoa(only), "-out", out, "-scratch", cs}
+					"-only", strconv.Itoa(only), "-out", out, "-scratch", cs, "-sub", strconv.Itoa(sub)}
 				cmd := exec.Command(o.Exe, args...)
 				cmd.Stdout = lf
 				cmd.Stderr = lf
@@ -302,12 +307,16 @@ func Drive(o DriveOpts) int {
 				recs := readRecords(out)
 				open := -1
 				last := -1
+				lastSub := -1
 				notes := map[int]string{}
 				a.mu.Lock()
 				for _, r := range recs {
 					switch r.T {
 					case "start":
 						open = r.I
+						lastSub = -1
+					case "sub":
+						lastSub = r.K
 					case "note":
 						notes[r.I] = r.Desc
 					case "end":
@@ -399,8 +408,12 @@ func Drive(o DriveOpts) int {
 				if only >= 0 {
 					break
 				}
-				// resume after the failing case
-				first = open + stride
+				// resume: inside the same case after the failing sub-input, else after the failing case
+				if lastSub >= 0 && lastSub+1 > sub || (lastSub >= 0 && open != first) {
+					first, sub = open, lastSub+1
+				} else {
+					first, sub = open+stride, 0
+				}
 			}
 		}(b)
 	}
